@@ -1,5 +1,5 @@
 CONSTANTS MaxLen = 2 Sample = 0
 INIT Init
 NEXT Next
-INVARIANTS OrderIrrelevant Monotone InverseIsNegation
+INVARIANTS OrderIrrelevant Monotone InverseIsNegation ExcludeWinsAcrossSpellings
 CHECK_DEADLOCK FALSE
